@@ -65,7 +65,7 @@ import (
 
 func cases(tier string) int {
 	if tier == "thorough" {
-		return 80000
+		return 200000
 	}
 	return 1600
 }
